@@ -138,7 +138,7 @@ func InstallHooks() {
 		if s == nil {
 			return
 		}
-		if !s.HeldByCurrent() && !strings.HasSuffix(s.Label(), "startup") {
+		if l := s.Label(); l != "" && !s.Inert && !s.Closed() && !s.HeldByCurrent() && !strings.HasSuffix(l, "startup") {
 			s.Violate("C07.lock-discipline", point, "index method entered without the cache mutex by %s", s.Label())
 		}
 	}
